@@ -62,7 +62,7 @@ Exact(r) ==
             ELSE M \cap txt = ExactMask(c, st) /\ M \subseteq txt
       [] r.ev = "ValidateAll" /\ r.ok = 1 /\ ~Stopped(r.e) -> SeqToSet(r.set) \cap txt = ExactMask(c, st)
       [] r.ev = "Acc" /\ r.ok = 1 /\ ~Stopped(r.e) -> (r.v = 1) = IsAcc(st)
-      [] r.ev = "Consume" /\ ~Stopped(r.e) /\ r.t < s.n /\ (r.t \in txt) -> (r.ok = 1) = Allowed(c, st, r.t)
+      [] r.ev = "Consume" /\ ~Stopped(r.e) /\ r.t < s.n /\ (r.t \in txt) /\ ~(r.ok = 0 /\ r.cls = "limit") -> (r.ok = 1) = Allowed(c, st, r.t)
       [] OTHER -> TRUE
 
 Explain(r) ==
